@@ -28,6 +28,7 @@ structure PRec where
 structure DState where
   recs : List PRec := []
   disabled : Disabled := []
+  conf : List Str := []
   defaults : List (Str × Str) := []
   important : List Str := []
   maxNesting : Nat := 10
@@ -139,6 +140,12 @@ def encGet : Except GErr (List Str) → String
 def decBool (f : String) : Option Bool :=
   if f = "1" then some true else if f = "0" then some false else none
 
+def encStore (d : Disabled) : String :=
+  if d.isEmpty then "-" else ";".intercalate (d.map fun e => enc e.1 ++ ":" ++ (match e.2 with | none => "~" | some ps => encList ps))
+
+def encOwner (r : OwnerSt × Bool) : String :=
+  (if r.2 then "ok" else "err") ++ "\t" ++ encStore r.1.store ++ "\t" ++ encList r.1.conf
+
 def step (s : DState) : List String → DState × String
   | ["reset"] => ({}, "ok")
   | ["plugin", id, parent, name, thr, methods] =>
@@ -187,6 +194,29 @@ def step (s : DState) : List String → DState × String
           | .ambiguous c names => "ambiguous\t" ++ encList c ++ "\t" ++ encList names
           | .exc .indexError => "exc\tIndexError")
     | none => (s, "bad-op")
+  | ["dconf", names] =>
+    match decList names with
+    | some names => ({ s with conf := names }, "ok")
+    | none => (s, "bad-op")
+  | ["odisable", pl, cmd] =>
+    match (if pl = "~" then some none else (decNat pl).map some), dec cmd with
+    | some pl, some cmd =>
+      let plugin : Option (Option (Str × List Str)) :=
+        match pl with
+        | none => some none
+        | some i => (s.dispCfg.callbacks[i]?).map fun p => some (p.name, p.methods)
+      (match plugin with
+       | none => (s, "bad-op")
+       | some plugin =>
+         let r := ownerDisable ⟨s.disabled, s.conf⟩ plugin cmd
+         ({ s with disabled := r.1.store, conf := r.1.conf }, encOwner r))
+    | _, _ => (s, "bad-op")
+  | ["oenable", pl, cmd] =>
+    match (if pl = "~" then some none else (dec pl).map some), dec cmd with
+    | some pl, some cmd =>
+      let r := ownerEnable ⟨s.disabled, s.conf⟩ pl cmd
+      ({ s with disabled := r.1.store, conf := r.1.conf }, encOwner r)
+    | _, _ => (s, "bad-op")
   | ["eval", tree] =>
     match decTree tree with
     | some args =>
